@@ -251,6 +251,41 @@ Proof.
 Qed.
 End KwargsProofs.
 
+(* ------------------------------------------------------------------------------------------ stored Generator *)
+(* deepcopy semantics: the store only grows and existing cells are never written *)
+Lemma gstep_deep_extends (g : gstate) (o : gop) :
+  exists t u, g_store (fst (gstep true g o)) = g_store g ++ t /\ g_partials (fst (gstep true g o)) = g_partials g ++ u.
+Proof.
+  destruct o as [r|r]; cbn.
+  - do 2 eexists. split; [reflexivity|]. symmetry. apply app_nil_r.
+  - do 2 eexists. split; reflexivity.
+Qed.
+Lemma grun_deep_extends (ops : list gop) : forall g,
+  exists t u, g_store (fst (grun true g ops)) = g_store g ++ t /\ g_partials (fst (grun true g ops)) = g_partials g ++ u.
+Proof.
+  induction ops as [|o ops IH]; intros g.
+  - exists [], []. cbn. rewrite !app_nil_r. split; reflexivity.
+  - cbn [grun]. destruct (gstep_deep_extends g o) as [t1 [u1 [E1 E1']]].
+    destruct (gstep true g o) as [g1 r]. cbn [fst] in E1, E1'.
+    destruct (IH g1) as [t2 [u2 [E2 E2']]]. destruct (grun true g1 ops) as [g2 rs]. cbn [fst] in *.
+    exists (t1 ++ t2), (u1 ++ u2). rewrite E2, E1, E2', E1', !app_assoc. split; reflexivity.
+Qed.
+
+(* after ANY history, a call of an existing partial draws from the position its generator had before the history,
+   and the cell it stores (for partial 0: the caller's own Generator) has not moved *)
+Lemma gen_deep_pure (ops : list gop) (g : gstate) (r : nat) :
+  r < length (g_partials g) -> nth r (g_partials g) 0 < length (g_store g) ->
+  let g' := fst (grun true g ops) in
+  snd (gstep true g' (GCall r)) = snd (gstep true g (GCall r)) /\
+  nth (nth r (g_partials g') 0) (g_store g') 0 = nth (nth r (g_partials g) 0) (g_store g) 0.
+Proof.
+  intros Hr Ha g'. destruct (grun_deep_extends ops g) as [t [u [E E']]]. fold g' in E, E'.
+  assert (P : nth r (g_partials g') 0 = nth r (g_partials g) 0) by (rewrite E', app_nth1 by assumption; reflexivity).
+  assert (S : nth (nth r (g_partials g) 0) (g_store g') 0 = nth (nth r (g_partials g) 0) (g_store g) 0)
+    by (rewrite E, app_nth1 by assumption; reflexivity).
+  split; [cbn; rewrite P, S; reflexivity|rewrite P; exact S].
+Qed.
+
 (* ------------------------------------------------------------------------------------------ generic list lemmas *)
 Lemma NoDup_app_intro {A} (a b : list A) :
   NoDup a -> NoDup b -> (forall x, In x a -> ~ In x b) -> NoDup (a ++ b).
